@@ -1,7 +1,10 @@
 (* C09 — instance modes: one instance per daemon ('single'), per connection ('session') or per
    call ('percall'), whatever the instances look like.  Property theorems only.
 
-   Model (Model/Instances.v): events [Call conn cls] / [Close conn how] (how = orderly / reset / stale socket / after an error); [world] = what the n-th creator
+   Model (Model/Instances.v): events [Call conn cls] / [Close conn how] (how = orderly / reset / stale socket / after an error) / [Reg cls id force] / [Unreg id]
+   (a class may be known by several ids, be unregistered and registered again: a [Call] reaches its class through
+   whichever id; 'single' is read as: exactly one instance per (daemon, class) ever serves calls, for the daemon's
+   lifetime, regardless of ids); [world] = what the n-th creator
    invocation does for a class (fail, wrong type, or an instance with arbitrary truthiness / __eq__ bits)
    is universally quantified; [modes] assigns a mode to every class; the trace pairs every event with the
    instance that served it.  [code_shape] is regenerated from Pyro5/server.py and socketutil.py on every run. *)
@@ -10,7 +13,8 @@ Import ListNotations.
 From V Require Import Model.Atomic Model.Instances Gen.GenInstances Proofs.Atomic Proofs.Instances.
 
 (* Tie to the source: both lookup tests are `is None`, the whole get-or-create of the 'single' branch
-   lies inside one region of a daemon lock, SocketConnection.close() empties the session table. *)
+   lies inside one region of a daemon lock, SocketConnection.close() empties the session table, and no other
+   code in Pyro5 (register, unregister, housekeeping, ...) touches the two instance tables. *)
 Theorem C09_source_shape : shape_ok code_shape = true.
 Proof. reflexivity. Qed.
 Print Assumptions C09_source_shape.
@@ -148,8 +152,8 @@ Example C09_nonvacuous_hist :
   let w := script_world [OMade false true; OFail; OMade true false] (OMade false false) in
   let modes := fun c => match c with 0 => MSingle | 1 => MSession | _ => MPercall end in
   map snd (snd (run_hist shape_fixed w modes
-     [Call 0 0; Call 1 0; Call 0 1; Call 1 1; Call 0 1; Close 0 EReset; Call 0 1; Call 0 2; Call 0 2] st0)) =
-  [Served (mk_inst 0 0 false true); Served (mk_inst 0 0 false true); Failed false;
+     [Call 0 0; Unreg 0; Reg 0 7 true; Call 1 0; Call 0 1; Call 1 1; Call 0 1; Close 0 EReset; Call 0 1; Call 0 2; Call 0 2] st0)) =
+  [Served (mk_inst 0 0 false true); Admin; Admin; Served (mk_inst 0 0 false true); Failed false;
    Served (mk_inst 2 1 true false); Served (mk_inst 3 1 false false); Closed;
    Served (mk_inst 4 1 false false); Served (mk_inst 5 2 false false); Served (mk_inst 6 2 false false)].
 Proof. vm_compute. reflexivity. Qed.
